@@ -105,6 +105,16 @@ def tab_bar(t, bar, width):
     from mingus.extra import tablature
     return lines(tablature.from_Bar(mk_bar(bar), width, None if t is None else mk_tuning(t)))
 
+def tab_bar_twice(t, bar, width, first):
+    """THE SAME Bar object drawn first on another tuning, then on `t`: drawing reads the music, it leaves nothing on the notes"""
+    from mingus.extra import tablature
+    b = mk_bar(bar)
+    try:
+        tablature.from_Bar(b, width, mk_tuning(first))
+    except Exception:
+        pass
+    return lines(tablature.from_Bar(b, width, None if t is None else mk_tuning(t)))
+
 def tab_track(t, track, maxwidth):
     from mingus.extra import tablature
     return lines(tablature.from_Track(mk_track(track), maxwidth, None if t is None else mk_tuning(t)))
@@ -169,7 +179,7 @@ def tab_composition_safe(comp, width):
 
 IMPL = {"tun.frets": tun_frets, "tun.note": tun_note, "tun.fingering": tun_fingering, "tun.chord": tun_chord,
         "tun.get": tun_get, "tun.gets": tun_gets, "tab.note": tab_note, "tab.nc": tab_nc, "tab.bar_pinned": tab_bar_pinned, "tab.note_pinned": tab_note_pinned, "tab.nc_form": tab_nc_form, "tab.track_via": tab_track_via, "tab.bar": tab_bar,
-        "tab.track": tab_track, "tab.composition": tab_composition}
+        "tab.bar_twice": tab_bar_twice, "tab.track": tab_track, "tab.composition": tab_composition}
 
 def has_model(c):
     return True
@@ -454,6 +464,13 @@ def cases(tier, rng):
         em = rng.choice(["", word(2, 6) + "@" + word(2, 6) + ".org"])
         trs = [["t", None, [tab_bar_payload(rng, open_pitches(STD)) for _ in range(rng.randint(0, 2))]] for _ in range(rng.randint(1, 2))]
         out.append(Case("tab.composition", [[ttl, sub, au, em, desc, trs], w], tag="tab:composition-header"))
+    # one Bar object drawn on two tunings one after the other (six strings then four, four then six, ...)
+    GTR12 = ["E-2", "A-2", "D-3", "G-3", "B-3", "E-4"]
+    for _ in range(30 if tier == "quick" else 300):
+        second, first = rng.choice([(["C-3", "G-3", "D-4", "A-4"], GTR12), (None, ["C-3", "G-3", "D-4", "A-4"]), (["G-4", "C-4", "E-4", "A-4"], GTR12),
+                                    (GTR12, ["E-1", "A-1", "D-2", "G-2"]), (["E-1", "A-1", "D-2", "G-2"], GTR12)])
+        out.append(Case("tab.bar_twice", [second, tab_bar_payload(rng, open_pitches(second or STD)), rng.choice([40, 60, 80]), first],
+                        tag="tab:bar-drawn-twice", model=False))
     out.append(Case("tab.bar", [None, ["C", 4, 4, []], 40], tag="tab:bar"))
     out.append(Case("tab.track", [None, ["t", None, []], 80], tag="tab:track"))
     return out
@@ -493,6 +510,8 @@ def fingerable(t, ns):
 
 def oracle(c, obs):
     fn, a = c["fn"], c["args"]
+    if fn == "tab.bar_twice":
+        fn, a = "tab.bar", a[:3]
     if fn == "tun.frets":
         t, n, mf = a
         if isinstance(obs, Err):
